@@ -409,3 +409,80 @@ def pd_concat_one_row(I, frame, row):
             v = SymStr(z3.IntVal(SymStr.code(str(v)))) if not isinstance(v, SymStr) else v
         cols[c] = npmodel.concat(I, arr, SymArr(0, kind=arr.kind, items=[v]))
     return SymFrame(cols, mkint(iadd(frame.nrows, 1)))
+
+
+# ---------------------------------------------------------------- symbolic-length lists of records
+
+class SymObjList:
+    """a list of N records (N symbolic); element i is a record whose fields are uninterpreted functions of i.
+    `make(i)` builds (and memoises per index term) the record object for index i."""
+
+    def __init__(self, length, make):
+        self.length = length
+        self.make = make
+        self._memo = {}
+
+    def at(self, i):
+        i = idx_term(i)
+        if isinstance(i, int):
+            i = z3.IntVal(i)
+        k = tid(i)
+        if k not in self._memo:
+            self._memo[k] = self.make(i)
+        return self._memo[k]
+
+    def py_getitem(self, I, key):
+        key = idx_term(key)
+        c = ctx()
+        ok = band(icmp(">=", key, 0), icmp("<", key, self.length))
+        if not c.decide(ok):
+            if c.decide(band(icmp("<", key, 0), icmp(">=", key, mkint(isub(0, self.length))))):
+                return self.at(mkint(iadd(self.length, key)))
+            raise PyRaise("IndexError", "list index out of range")
+        return self.at(key)
+
+    def py_len(self, I):
+        return mkint(self.length)
+
+    def truth_term(self):
+        return icmp(">", self.length, 0)
+
+
+class SortedPerm:
+    """contract of  sorted(enumerate(L), key=k)  for a symbolic-length list: a permutation sigma of 0..N-1 (bijection: trusted
+    as part of the contract of `sorted`) such that k is non-decreasing along it; yields pairs (sigma(j), L[sigma(j)])."""
+
+    def __init__(self, lst, keyfn_vals, name):
+        self.lst = lst
+        self.length = lst.length
+        self.sigma = z3.Function(name, z3.IntSort(), z3.IntSort())
+        self.keyvals = keyfn_vals
+        self._seen = set()
+
+    def perm_at(self, j):
+        j = zi(idx_term(j))
+        s = self.sigma(j)
+        c = ctx()
+        if tid(j) not in self._seen:
+            self._seen.add(tid(j))
+            n = zi(self.length)
+            c.assume(z3.Implies(z3.And(j >= 0, j < n), z3.And(s >= 0, s < n)))
+        return SInt(s)
+
+    def at(self, j):
+        s = self.perm_at(j)
+        return (s, self.lst.at(s.t))
+
+    def key_at(self, j):
+        """the sort key of the j-th element of the sorted list (evaluates the real key function on it)"""
+        I, key, rev = self.keyvals
+        el = self.at(j)
+        return I.call(key, [el], {}) if key is not None else el
+
+    def ordered(self, j1, j2):
+        """contract of sorted: positions j1 <= j2 within range carry non-decreasing keys (term to assume)"""
+        I, key, rev = self.keyvals
+        a, b = self.key_at(j1), self.key_at(j2)
+        n = zi(self.length)
+        j1z, j2z = zi(idx_term(j1)), zi(idx_term(j2))
+        return z3.Implies(z3.And(j1z >= 0, j1z <= j2z, j2z < n), zb(xcmp(">=" if rev else "<=", a, b)))
